@@ -44,6 +44,9 @@ mod path_state;
 mod path_watcher;
 mod remote_info;
 
+#[cfg(feature = "verif-hooks")]
+pub(crate) use self::path_state::verif as path_state_verif;
+
 /// How often to attempt holepunching.
 ///
 /// If there have been no changes to the NAT address candidates, holepunching will not be
@@ -1291,6 +1294,8 @@ enum PathsSource<'a> {
     Live(&'a FxHashMap<ConnId, ConnectionState>),
     #[cfg(test)]
     Test(Vec<PathSelectionData<'a>>),
+    #[cfg(feature = "verif-hooks")]
+    Verif(Vec<PathSelectionData<'a>>),
 }
 
 #[cfg_attr(not(feature = "unstable-custom-transports"), allow(unreachable_pub))]
@@ -1317,6 +1322,19 @@ impl<'a> PathSelectionContext<'a> {
         }
     }
 
+    /// Constructs a context with synthetic path data (verification harness).
+    #[cfg(feature = "verif-hooks")]
+    #[doc(hidden)]
+    pub fn for_verif(
+        current: Option<&'a transports::FourTuple>,
+        paths: Vec<PathSelectionData<'a>>,
+    ) -> Self {
+        Self {
+            current,
+            source: PathsSource::Verif(paths),
+        }
+    }
+
     /// The path currently considered the preferred path to the remote endpoint, if any.
     pub fn current(&self) -> Option<&transports::FourTuple> {
         self.current
@@ -1340,6 +1358,8 @@ impl<'a> PathSelectionContext<'a> {
             ),
             #[cfg(test)]
             PathsSource::Test(paths) => Box::new(paths.iter().cloned()),
+            #[cfg(feature = "verif-hooks")]
+            PathsSource::Verif(paths) => Box::new(paths.iter().cloned()),
         }
     }
 }
@@ -1367,6 +1387,8 @@ enum StatsSource {
     /// size in production where only the `Live` variant is ever constructed.
     #[cfg(test)]
     Test(Option<Box<PathStats>>),
+    #[cfg(feature = "verif-hooks")]
+    Verif(Option<Box<PathStats>>),
 }
 
 #[cfg_attr(not(feature = "unstable-custom-transports"), allow(unreachable_pub))]
@@ -1397,6 +1419,16 @@ impl<'a> PathSelectionData<'a> {
         }
     }
 
+    /// Constructs a [`PathSelectionData`] with synthetic stats (verification harness).
+    #[cfg(feature = "verif-hooks")]
+    #[doc(hidden)]
+    pub fn for_verif(network_path: &'a transports::FourTuple, stats: Option<PathStats>) -> Self {
+        Self {
+            network_path,
+            source: StatsSource::Verif(stats.map(Box::new)),
+        }
+    }
+
     /// The network path of the candidate path.
     pub fn network_path(&self) -> &transports::FourTuple {
         self.network_path
@@ -1408,6 +1440,8 @@ impl<'a> PathSelectionData<'a> {
             StatsSource::Live { path_id, conn } => conn.path_stats(*path_id),
             #[cfg(test)]
             StatsSource::Test(stats) => stats.as_deref().copied(),
+            #[cfg(feature = "verif-hooks")]
+            StatsSource::Verif(stats) => stats.as_deref().copied(),
         }
     }
 }
